@@ -41,7 +41,7 @@ class WireHarness(EntityHarness):
         model = c.notes.get("witness_model", model)
         try:
             data = shapes.concretise(SymBytes(c.notes["wire_items"]), model)
-            w["bytes"] = data.hex() if len(data) <= 4096 else None
+            w["bytes"] = data.hex() if len(data) <= (1 << 17) else None
         except shapes.TooLarge:
             w["bytes"] = None
         return w
